@@ -76,7 +76,16 @@ pub struct Case {
 const METHODS: [&str; 4] = ["single", "complete", "average", "union"];
 
 /// symmetric pseudo-random distance of two sets, a function of their contents only
-fn content_distance(seed: u64, shift: f32, inf: (u8, bool, f32), a: &BTreeSet<u32>, b: &BTreeSet<u32>) -> f32 {
+/// v * 10^e, rounded once (the result may be subnormal)
+fn scaled(v: f32, e: i8) -> f32 {
+    if e == 0 {
+        v
+    } else {
+        (f64::from(v) * 10f64.powi(i32::from(e))) as f32
+    }
+}
+
+fn content_distance(seed: u64, shift: f32, inf: (u8, bool, i8), a: &BTreeSet<u32>, b: &BTreeSet<u32>) -> f32 {
     let h = |s: &BTreeSet<u32>| {
         let mut f = Fnv::new();
         f.u64(seed);
@@ -95,7 +104,7 @@ fn content_distance(seed: u64, shift: f32, inf: (u8, bool, f32), a: &BTreeSet<u3
         return if inf.1 { f32::NEG_INFINITY } else { f32::INFINITY };
     }
     // 24 bit mantissa: exactly representable, distinct with high probability
-    (((h >> 40) as f32 + 1.0) / 16_777_216.0 - shift) * inf.2
+    scaled(((h >> 40) as f32 + 1.0) / 16_777_216.0 - shift, inf.2)
 }
 
 /// Drains a double-ended iterator with `next` / `next_back` in the order given by the bits of `pattern`
@@ -157,17 +166,14 @@ pub fn check(c: &Case, stats: &mut Stats) -> CheckResult {
             table[j * n + i] = inf_value;
         }
     }
-    let scale = 10f32.powi(i32::from(c.scale_exp));
-    ensure!(scale.is_finite() && scale > 0.0, "harness/bad-case", "scale exponent out of range");
-    if c.scale_exp != 0 {
-        for v in table.iter_mut() {
-            *v *= scale;
-        }
+    ensure!((-45..=30).contains(&c.scale_exp), "harness/bad-case", "scale exponent out of range");
+    for v in table.iter_mut() {
+        *v = scaled(*v, c.scale_exp);
     }
     let table = &table;
     let seed = c.seed;
     let shift = c.shift;
-    let inf = (c.inf_rate, c.inf_neg, scale);
+    let inf = (c.inf_rate, c.inf_neg, c.scale_exp);
     // a set handed to the callback must be a set: strictly ascending iteration, len() = number of terms
     let malformed: RefCell<Option<String>> = RefCell::new(None);
     let distance = |combs: Combinations<HpoSet<'_>>| -> Vec<f32> {
@@ -388,7 +394,7 @@ pub fn check(c: &Case, stats: &mut Stats) -> CheckResult {
 
 fn strategy(tier: Tier) -> BoxedStrategy<Case> {
     let max = if tier == Tier::Quick { 24usize } else { 40 };
-    (2..=max, 0u8..4, vec(any::<u16>(), NT as usize), vec(0u8..8, 40), vec(any::<u32>(), 40 * 40), any::<u64>(), proptest::bool::weighted(0.15), 0u8..4, 0u8..5, (0u8..10, vec((any::<u16>(), any::<u16>()), 1..6), any::<bool>(), prop_oneof![8 => Just(0i8), 1 => Just(-10i8), 1 => Just(-9i8), 1 => -30i8..=-5, 1 => 5i8..=30]))
+    (2..=max, 0u8..4, vec(any::<u16>(), NT as usize), vec(0u8..8, 40), vec(any::<u32>(), 40 * 40), any::<u64>(), proptest::bool::weighted(0.15), 0u8..4, 0u8..5, (0u8..10, vec((any::<u16>(), any::<u16>()), 1..6), any::<bool>(), prop_oneof![8 => Just(0i8), 1 => Just(-10i8), 1 => Just(-9i8), 1 => -30i8..=-5, 1 => 5i8..=30, 1 => -45i8..=-36]))
         .prop_map(|(n, method, keys, extra, raw, seed, coarse, sign, iter_kind, (inf_sel, inf_raw, inf_neg, scale_exp))| {
             // a random partition of a prefix of the 96 terms into n non-empty sets
             let mut order: Vec<(u16, u32)> = keys.iter().enumerate().map(|(i, k)| (*k, i as u32 + 1)).collect();
@@ -509,7 +515,7 @@ impl Property for C17 {
         "C17"
     }
     fn rule(&self) -> String {
-        "Generated: n in 2..=24 (thorough 40) input sets with pairwise different contents, in one case of four overlapping (mostly singletons, some with 2-3 terms, in one case of ten one input is the empty set) over a flat 96-term ontology, handed over as a Vec or as iterators without an exact size hint (filter, chain, map_while); for single/complete/average a generated symmetric table of initial distances (distinct values, or few values so that ties are frequent; shifted so that distances are all positive, mixed-sign, all negative or touch zero; in one case of five some pairs - for n <= 6 sometimes all - are infinitely far apart, +inf or -inf but never both; in one case of three all distances are scaled by 10^e, e in -30..=30, so that they lie far below f32::EPSILON or far above 1); for union a symmetric pseudo-random distance that is a function of the two sets' contents, so merged sets get fresh values. Oracle = validity predicate simulated along the library's own merge choices (ties admit several dendrograms): exactly n-1 merges; each merge joins two live, different clusters (inputs or earlier merges n+k), so every input and intermediate cluster is merged exactly once and one cluster remains; the reported distance equals the pair's current distance bit for bit and no live pair is strictly closer; distances to the new cluster follow the method (min / max / mean of the two parts in f32 / content function of the union); len adds up and is n at the last merge; indicies() is a permutation of 0..n; cluster(), iter(), &linkage and into_cluster() agree, also when read from the back (rev) or from both ends in a generated order of next / next_back calls, with len() equal to the number of merges left at every step; the first callback invocation asks every unordered pair of inputs exactly once (later invocations, which also pair the new set with itself, are not constrained). evaluations = clusterings. Non-trivial = n >= 4 and some merge joins two earlier clusters; distinct by hash of the case.".into()
+        "Generated: n in 2..=24 (thorough 40) input sets with pairwise different contents, in one case of four overlapping (mostly singletons, some with 2-3 terms, in one case of ten one input is the empty set) over a flat 96-term ontology, handed over as a Vec or as iterators without an exact size hint (filter, chain, map_while); for single/complete/average a generated symmetric table of initial distances (distinct values, or few values so that ties are frequent; shifted so that distances are all positive, mixed-sign, all negative or touch zero; in one case of five some pairs - for n <= 6 sometimes all - are infinitely far apart, +inf or -inf but never both; in one case of three all distances are scaled by 10^e, e in -45..=30, so that they lie far below f32::EPSILON, among the subnormal numbers, or far above 1); for union a symmetric pseudo-random distance that is a function of the two sets' contents, so merged sets get fresh values. Oracle = validity predicate simulated along the library's own merge choices (ties admit several dendrograms): exactly n-1 merges; each merge joins two live, different clusters (inputs or earlier merges n+k), so every input and intermediate cluster is merged exactly once and one cluster remains; the reported distance equals the pair's current distance bit for bit and no live pair is strictly closer; distances to the new cluster follow the method (min / max / mean of the two parts in f32 / content function of the union); len adds up and is n at the last merge; indicies() is a permutation of 0..n; cluster(), iter(), &linkage and into_cluster() agree, also when read from the back (rev) or from both ends in a generated order of next / next_back calls, with len() equal to the number of merges left at every step; the first callback invocation asks every unordered pair of inputs exactly once (later invocations, which also pair the new set with itself, are not constrained). evaluations = clusterings. Non-trivial = n >= 4 and some merge joins two earlier clusters; distinct by hash of the case.".into()
     }
     fn assumptions(&self) -> Vec<String> {
         vec![
